@@ -147,7 +147,16 @@ META["C16"] = dict(
           "external parser and goexpr are covered by generation only. Modelled: outcome classes; not modelled: what each function computes."),
     technique="Coq proof over translated structural facts (recover sites, checked assertions) + crash-isolated fuzzing of the real entry points")
 
+META["C10"] = dict(
+    text=("Theorems (Props/C10.v): routing is a function into [0,P) so every point goes to exactly one partition, leader inclusion and "
+          "follower re-check agree, routing depends only on the partition-key values; re-merging the partitions' partial states gives "
+          "the state and value of all points for every split; with output groups confined to partitions, each group is held "
+          "entirely by the partition its points are routed to and by no other. Correspondence: in-process clusters answering generated "
+          "queries vs the reference, and per-follower contents vs the reference over the points routed there."),
+    design_ref="DESIGN.md section 4 / C10", note=_DBNOTE + " murmur3, the leader's parallel map/sort pipeline, follower start-up timers and gRPC are outside the model; only caught-up states are observed.",
+    technique="Coq proof (routing function, merge homomorphism over partitions, group confinement) + in-process cluster vs specification model differential")
+
 NOT_APPLICABLE = [
     {"property_id": p, "reason": _PENDING}
-    for p in ["C02", "C10", "C11", "C12", "C13", "C20"]
+    for p in ["C02", "C11", "C12", "C13", "C20"]
 ]
